@@ -382,4 +382,40 @@ theorem docD_allCont (norm : Str → Str) (d : Doc) (fuel : Nat) (hw : okDoc nor
   simp only [hd]
   simp [adv, push, St.init, atb, dupEvents]
 
+
+-- ---- documents without duplicates -------------------------------------------------------------------------------------------
+
+/-- pairwise distinct after normalisation -/
+def distinctN (norm : Str → Str) : List Str → Bool
+  | [] => true
+  | a :: r => !r.any (fun b => norm b == norm a) && distinctN norm r
+
+def elemNames : Elem → List Str
+  | .item n _ => [n]
+  | .loop ns _ => ns
+  | .frame _ _ => []
+
+def frameCodes : List Elem → List Str
+  | [] => []
+  | .frame c _ :: es => c :: frameCodes es
+  | _ :: es => frameCodes es
+
+/-- the data names of a container body are pairwise distinct, and so are its frame codes -/
+def distinctFlat (norm : Str → Str) (es : List Elem) : Bool :=
+  distinctN norm (es.flatMap elemNames) && distinctN norm (frameCodes es)
+
+def distinctBlock (norm : Str → Str) (es : List Elem) : Bool :=
+  distinctFlat norm es && es.all (fun e => match e with | .frame _ body => distinctFlat norm body | _ => true)
+
+/-- no duplicate block code, frame code (per block) or data name (per container), after normalisation `norm` -/
+def distinctDoc (norm : Str → Str) (d : Doc) : Bool :=
+  distinctN norm (d.map (·.code)) && d.all (fun b => distinctBlock norm b.body)
+
+/-- the documents of the document-level theorems about `parseCB`: well-formed AND free of duplicates — with duplicates the C
+    makes a DUP_* diagnostic, which `parseCB` does not model (`parseCBD` does: `C15_dup_all_continue_mirror`) -/
+def wfDocN (norm : Str → Str) (d : Doc) : Bool := wfDoc d && distinctDoc norm d
+
+theorem wfDocN_wf {norm : Str → Str} {d : Doc} (h : wfDocN norm d = true) : wfDoc d = true := by
+  simp only [wfDocN, Bool.and_eq_true] at h; exact h.1
+
 end CifModel.Lemmas.ParseCB
